@@ -916,6 +916,9 @@ func runSystem(a *args) error {
 						cfg.Start = int64(prog[0].Init)
 					}
 					cfg.Stop = uint64(cfg.Start) + 2*seg + uint64(r.Intn(8))
+					if cfg.Stop > 48 { // the reference execution of the specification covers blocks 0..48
+						cfg.Stop = 48
+					}
 					cfg.LibOK, cfg.Lib = true, cfg.Stop+uint64(r.Intn(10))
 					first = cfg
 				} else if paired && k == 1 {
